@@ -281,7 +281,9 @@ class Parameter(AbstractParameter):
         elif 'full' in data:
             if dtype:
                 kwargs['dtype'] = dtype
-            size = data['full']  # a list
+            size = data['full']  # an int or a list
+            if isinstance(size, int):
+                size = [size]
             if 'rand' in data:
                 t = tensor_rand(data['rand'], size, **kwargs)
             else:
